@@ -153,7 +153,10 @@ func (ex *Exec) pickNext() *Thread {
 		}
 		if len(rs) > 0 {
 			k := 0
-			if len(rs) > 1 {
+			if len(rs) > 1 && ex.schedAll {
+				// order of threads that become runnable together: explored only on
+				// request (sched=all); otherwise the lowest thread id runs first and
+				// the pre-emption bound supplies the other interleavings at sync points
 				k = ex.choose(len(rs), "next")
 			}
 			return rs[k]
